@@ -2,6 +2,7 @@
    complete; the general case is the case split of coincident_parameters with locate_point as an oracle). Statements only. *)
 From Coq Require Import List ZArith QArith Qabs Bool String.
 From BZ Require Import Base.PyVal Gen.PyFnHelpers Gen.PyFnGeometric Gen.PyFnIntersect Theory.Predicates Theory.IntersectFlow.
+From BZ Require Import Base.Ops Model.Curve Theory.CurveSubdiv.
 Import ListNotations.
 Open Scope Q_scope.
 Open Scope string_scope.
@@ -48,3 +49,25 @@ Theorem C20_coincident_case_split_total : forall o_msd o_loc o_spec o_vc n1 n2,
                   in_unit a /\ in_unit b /\ in_unit c /\ in_unit d.
 Proof. exact coincident_parameters_in_unit. Qed.
 Print Assumptions C20_coincident_case_split_total.
+
+(* general (curved) case: a reported shared segment ((s0, t0), (s1, t1)) passed the closeness check on exactly the reported sub-arcs
+   - vector_close was asked about, and accepted, specialize(curve1, s0, s1) (or curve1 itself when the whole of it is claimed)
+   against specialize(curve2, t0, t1) (or curve2 itself) - whatever the oracles (make_same_degree, locate_point, specialize_curve,
+   vector_close) answer; regenerated function *)
+Theorem C20_reported_segment_passed_the_closeness_check : forall o_msd o_loc o_spec o_vc n1 n2 s0 t0 s1 t1,
+  py_coincident_parameters o_msd o_loc o_spec o_vc n1 n2 = VTup [VTup [s0; t0]; VTup [s1; t1]] ->
+  let m1 := vidx (o_msd n1 n2) 0 in let m2 := vidx (o_msd n1 n2) 1 in
+  (t0 = VQ 0 /\ t1 = VQ 1 /\ truth (o_vc (o_spec m1 s0 s1) m2) = true) \/
+  (s0 = VQ 0 /\ s1 = VQ 1 /\ truth (o_vc m1 (o_spec m2 t0 t1)) = true) \/
+  truth (o_vc (o_spec m1 s0 s1) (o_spec m2 t0 t1)) = true.
+Proof. exact coincident_result_passed_the_closeness_check. Qed.
+Print Assumptions C20_reported_segment_passed_the_closeness_check.
+(* ... and what the check means: sub-arcs whose specialized nets are equal are the same curve point for point (any commutative
+   ring, every degree; sigma is the common parameter of the two sub-arcs) *)
+Theorem C20_equal_specializations_are_the_same_arc : forall (T : Type) (K : Ops T), ring_of K ->
+  forall v1 v2 a1 b1 a2 b2 s, (2 <= List.length v1)%nat -> (2 <= List.length v2)%nat ->
+  specialize K v1 a1 b1 = specialize K v2 a2 b2 ->
+  bernstein K v1 (osub K (o1 K) (oadd K (omul K (osub K (o1 K) s) a1) (omul K s b1))) (oadd K (omul K (osub K (o1 K) s) a1) (omul K s b1))
+  = bernstein K v2 (osub K (o1 K) (oadd K (omul K (osub K (o1 K) s) a2) (omul K s b2))) (oadd K (omul K (osub K (o1 K) s) a2) (omul K s b2)).
+Proof. exact @equal_specializations_coincide. Qed.
+Print Assumptions C20_equal_specializations_are_the_same_arc.
